@@ -97,6 +97,9 @@ def make_system(B, n, kind):
         a = B.reals("a", (n,))
         B.assume_all([t > 0 for t in a])
         return np.diag(a)
+    if kind == "diag_fixed":              # concrete positive diagonal: cheap terms when start vector and rhs are symbolic
+        v = np.array([1.0, 9.0, 4.0][:n])
+        return np.diag(v.astype(object) if B.mode == "sym" else v)
     if kind == "sym_pd":
         a, b, d = B.reals("ma"), B.reals("mb"), B.reals("md")
         B.assume(a > 0)
@@ -242,6 +245,8 @@ def scenarios(tier, seed):
             quick.append(("pd", {"n": 1, "kind": "diag_pd", "crit": crit, "miniter": miniter, "maxiter": 2, "with_x0": False}))
             thorough.append(("pd", {"n": 2, "kind": "diag_pd", "crit": crit, "miniter": miniter, "maxiter": 2, "with_x0": False}))
         quick.append(("pd", {"n": 1, "kind": "diag_pd", "crit": crit, "miniter": 0, "maxiter": 2, "with_x0": True}))
+        if crit == "resnorm":     # a start vector in dimension 2 (the energy bookkeeping of the start point matters)
+            thorough.append(("pd", {"n": 2, "kind": "diag_fixed", "crit": crit, "miniter": 0, "maxiter": 1, "with_x0": True}))
         thorough.append(("pd", {"n": 2, "kind": "diag_pd", "crit": crit, "miniter": 0, "maxiter": 3, "with_x0": False}))
         thorough.append(("pd", {"n": 2, "kind": "diag_pd", "crit": crit, "miniter": 2, "maxiter": 2, "with_x0": False}))
         thorough.append(("pd", {"n": 2, "kind": "diag_pd", "crit": crit, "miniter": 0, "maxiter": 2, "with_x0": True}))
